@@ -21,6 +21,8 @@ META = {
 
 def run(ctx, res):
     prog = ctx.prog("K0")
+    import rejects, re
+    rejects.rule_encode_reject_inventory(prog, res, only=re.compile(r'(_vec::encode|df_desc_str\\w*::encode|Assembler::put)$'))
     mods = lists.rule_lists(prog, res)
     lists.rule_fit(prog, res, mods)
     cl = panics.closure(prog, panics.DEC_ROOTS)
